@@ -112,7 +112,56 @@ func checkHeld(scen string, in HeldIn) *mc.Violation {
 	if after := gen.CanonDep(d1); after != in.First.Canon {
 		return mc.V(scen, "structure-exact", in, in.First.Canon, "the first result, looked at again after the second call: "+after)
 	}
+	// a result belongs to its caller in the other direction too: the caller may overwrite every part of it (resolve a
+	// qualifier, rename, clear a list) and later parses - of the same or of another field - are unaffected
+	var d3, d4 *dependency.Dependency
+	var e3, e4 error
+	if p, msg := mc.Guard(func() {
+		scribble(d1)
+		scribble(d2)
+		d3, e3 = parseVia(in.First.Via, in.First.Text)
+		d4, e4 = parseVia(in.Second.Via, in.Second.Text)
+	}); p {
+		return mc.V(scen, "parse-returns", in, "no panic", "panic: "+msg)
+	}
+	if e3 != nil || e4 != nil {
+		return mc.V(scen, "wellformed-accepted", in, in.First.Canon, fmt.Sprintf("after the caller modified earlier results: %v / %v", e3, e4))
+	}
+	if got := gen.CanonDep(d3); got != in.First.Canon {
+		return mc.V(scen, "structure-exact", in, in.First.Canon, "parsed again after the caller modified the earlier results: "+got)
+	}
+	if got := gen.CanonDep(d4); got != in.Second.Canon {
+		return mc.V(scen, "structure-exact", in, in.Second.Canon, "parsed again after the caller modified the earlier results: "+got)
+	}
 	return nil
+}
+
+// scribble overwrites everything reachable from a parsed field.
+func scribble(d *dependency.Dependency) {
+	for ri := range d.Relations {
+		for pi := range d.Relations[ri].Possibilities {
+			p := &d.Relations[ri].Possibilities[pi]
+			p.Name = "scribbled"
+			if p.Arch != nil {
+				*p.Arch = dependency.Arch{ABI: "sx", OS: "sy", CPU: "sz"}
+			}
+			if p.Version != nil {
+				p.Version.Operator, p.Version.Number = "??", "scribbled"
+			}
+			if p.Architectures != nil {
+				p.Architectures.Not = !p.Architectures.Not
+				for ai := range p.Architectures.Architectures {
+					p.Architectures.Architectures[ai] = dependency.Arch{ABI: "sx", OS: "sy", CPU: "sz"}
+				}
+			}
+			for gi := range p.StageSets {
+				for si := range p.StageSets[gi].Stages {
+					p.StageSets[gi].Stages[si].Name = "scribbled"
+					p.StageSets[gi].Stages[si].Not = !p.StageSets[gi].Stages[si].Not
+				}
+			}
+		}
+	}
 }
 
 // MalIn is the replayable input for the corruption scenario.
